@@ -378,7 +378,9 @@ class ShardedScaleBase(CMCReadWrite, ABC):
     def fetch_cmc_chunk(self, cmc: np.uint64):
         shard_key = self.get_shard_key(cmc)
         shard = self.get_shard(shard_key)
-        assert shard.can_read_cmc
+        if not shard.can_read_cmc:
+            raise ShardedIOError(f"Chunk {cmc} not found: no readable shard "
+                                 "file")
         return shard.fetch_cmc_chunk(cmc)
 
     def fetch_chunk(self, chunk_coords):
